@@ -66,7 +66,7 @@ specs = {
          "threshold +-2 x leeway {-1,0,1,59,2^31,2^40} x clock {0,1,1e9,2^31-1,2^31,2^40}; int64 extremes; 11 JSON types per claim; string pairs; all configuration sequences up to length 2 (quick) / 3 (thorough) over an 11-call alphabet + random longer ones, each followed by 10 probe tokens; signed and unsigned; expected verdict computed from the property statement", False),
     ])'''),
  "c06": dict(doc="C06 -- arbitrary token bytes: theorems (rejection, bounds, structural termination) + token-bytes suite under ASan/UBSan/LSan.",
-   mods=["Jwt.Props.C06"], files=["Jwt/Props/C06.lean", "Jwt/Lemmas/Pipeline.lean"], gen=2,
+   mods=["Jwt.Props.C06"], files=["Jwt/Props/C06.lean", "Jwt/Lemmas/Pipeline.lean"], gen=3,
    level="Lean theorems: rc=0 => two dots, first segment decodes+loads to JSON with a known string alg, second decodes+loads; decoder buffer accesses in bounds for every length and buffer content (C11 instance); termination by structural recursion. Memory safety/UB/leaks of the compiled code are witnessed by sanitizer runs over exhaustive short strings, grammar-derived near-valid tokens, random bytes and long inputs, under keyless/oct/RSA/EC/OKP checkers; verdicts compared with the model.",
    assume=["PARTIAL: memory safety, UB and leaks of compiled libjwt/jansson/OpenSSL are runtime facts witnessed by ASan/UBSan/LSan on the inputs explored, not proved"],
    body='''    import ecframe
@@ -109,7 +109,7 @@ specs = {
          "all sequences to length 3 (quick) / 4 (thorough) over {ok, callback fails, weak key, callback selects inadmissible key/alg, unsigned, error_clear} + random longer ones; each generate compared with a fresh identically configured builder", False),
     ])'''),
  "c14": dict(doc="C14 -- error reporting contract (checker and value parts).",
-   mods=["Jwt.Props.C14"], files=["Jwt/Props/C14.lean"], gen=4,
+   mods=["Jwt.Props.C14"], files=["Jwt/Props/C14.lean"], gen=5,
    level="Lean theorems: verify returns non-zero iff the flag is set afterwards, flag => message, success => clean, from every prior state; setkey refusal flags with message; generate returns NULL iff the flag is set with a message. Tied to the code by every failure cause x prior error state (reuse sequences) and by the C14 contract checked on every verify operation of the matrix.",
    assume=[],
    body='''    F.run_suites(ctx, model_ok, deep, [
@@ -160,7 +160,7 @@ specs = {
          "per key x admissible alg: random header/claim JSON trees (nesting<=6, unicode, 64-bit extremes, reals, empty containers, 4 KiB strings), sign under openssl|gnutls, verify under openssl|gnutls with the public half, read header+claims in the checker callback; plus ECDSA volume runs", False),
     ])'''),
  "c10": dict(doc="C10 -- generated tokens are well-formed and say exactly what the builder was told.",
-   mods=["Jwt.Props.C10"], files=["Jwt/Props/C10.lean", "Jwt/Lemmas/PipelineBuilder.lean"], gen=6,
+   mods=["Jwt.Props.C10"], files=["Jwt/Props/C10.lean", "Jwt/Lemmas/PipelineBuilder.lean"], gen=7,
    level="Lean theorems for every builder state and callback: token shape (three unpadded base64url parts, none <-> empty third), header = per-token headers with alg forced and typ defaulted (jwt_head_setup as two typed-map sets), claims = builder claims overridden by iat/nbf/exp, offsets on iff > 0 (generated __DISABLE), configuration untouched by generate, public-only keys refused. Tied to the code by configuration sequences + generate at several clocks with full token equality against the model and an independent decode against a Python builder spec.",
    assume=[],
    body='''    F.run_suites(ctx, model_ok, deep, [
